@@ -40,7 +40,7 @@ theorem Tracker.add_ok_noroom {tr tr' : Tracker} (h : tr.add = (tr', .ok)) (hr :
       simp [Tracker.hasRoom, Tracker.cap, Tracker.len] at hr
       omega
 
-theorem Tracker.remove_len (tr : Tracker) : tr.remove.len = tr.len - 1 := by
+theorem Tracker.remove_lenL (tr : Tracker) : tr.remove.len = tr.len - 1 := by
   cases tr with
   | noLimit l => rfl
   | soft sq hl l cr =>
@@ -64,7 +64,7 @@ theorem St.adj_idem (s : St) (c : Nat) : s.adj (s.adj c) = s.adj c := by
 @[simp] theorem cursor_setCursor_self (s : St) (k c : Nat) : (s.setCursor k c).cursor k = c := by
   simp [St.cursor, St.setCursor]
 
-theorem find_filter_ne {k k' : Nat} (h : k ≠ k') (l : List (Nat × Nat)) :
+theorem find_filter_neL {k k' : Nat} (h : k ≠ k') (l : List (Nat × Nat)) :
     (l.filter (fun p => p.1 != k')).find? (fun p => p.1 == k) = l.find? (fun p => p.1 == k) := by
   induction l with
   | nil => rfl
@@ -76,20 +76,20 @@ theorem find_filter_ne {k k' : Nat} (h : k ≠ k') (l : List (Nat × Nat)) :
     · have hp' : (p.1 != k') = true := by simpa using hp
       rw [List.filter_cons, hp', if_pos rfl, List.find?_cons, List.find?_cons, ih]
 
-theorem cursor_setCursor_ne (s : St) {k k' : Nat} (c : Nat) (h : k ≠ k') : (s.setCursor k' c).cursor k = s.cursor k := by
+theorem cursor_setCursor_neL (s : St) {k k' : Nat} (c : Nat) (h : k ≠ k') : (s.setCursor k' c).cursor k = s.cursor k := by
   simp only [St.cursor, St.setCursor]
   have hb : ((k', c).1 == k) = false := by simpa using fun e => h e.symm
-  rw [List.find?_cons, hb, find_filter_ne h]
+  rw [List.find?_cons, hb, find_filter_neL h]
 
 /-- `linkOf`, `back`, `adj` only read `q` and `links` -/
-theorem linkOf_congr {s s' : St} (hq : s'.q = s.q) (hl : s'.links = s.links) (c : Nat) : s'.linkOf c = s.linkOf c := by
+theorem linkOf_congrL {s s' : St} (hq : s'.q = s.q) (hl : s'.links = s.links) (c : Nat) : s'.linkOf c = s.linkOf c := by
   simp [St.linkOf, hq, hl]
-theorem back_congr {s s' : St} (hq : s'.q = s.q) : s'.back = s.back := by simp [St.back, hq]
+theorem back_congrL {s s' : St} (hq : s'.q = s.q) : s'.back = s.back := by simp [St.back, hq]
 theorem adj_congr {s s' : St} (hq : s'.q = s.q) (hl : s'.links = s.links) (c : Nat) : s'.adj c = s.adj c := by
-  simp [St.adj, linkOf_congr hq hl, back_congr hq]
+  simp [St.adj, linkOf_congrL hq hl, back_congrL hq]
 theorem succ_congr {s s' : St} (hq : s'.q = s.q) (hl : s'.links = s.links) {k : Nat}
     (hc : s'.cursor k = s.cursor k) : s'.succ k = s.succ k := by
-  simp [St.succ, adj_congr hq hl, linkOf_congr hq hl, hc]
+  simp [St.succ, adj_congr hq hl, linkOf_congrL hq hl, hc]
 
 /-! ### what a segment does to the queue state and which signals it sends -/
 
@@ -237,7 +237,7 @@ theorem facts_of_pop {σ : St} {t : Nat} {op : Op} {x : St × Int × List Sig} (
   | none hq => exact facts_noop rfl rfl (by simpa using hpre) hop
   | some e v rest hq =>
     refine ⟨?_, ?_, ?_, ?_, ?_, ?_, ?_, ?_, ?_, ?_, ?_, ?_, ?_, ?_⟩ <;> simp only
-    · intro h; rw [Tracker.remove_len, h, hq]; simp
+    · intro h; rw [Tracker.remove_lenL, h, hq]; simp
     · exact fun _ _ h => h
     · exact fun h => Or.inl ⟨h, hop⟩
     · exact id
@@ -365,8 +365,8 @@ theorem facts_next (σ : St) (t k : Nat) (b : Bool) : SegFacts σ t (.next k) (n
       intro j; simp only [St.cursor, hcur]
     by_cases he : k' = k
     · subst he
-      rw [St.succ, hcursor, cursor_setCursor_self, adj_congr hq hl, St.adj_idem, linkOf_congr hq hl]; exact hk
-    · rw [succ_congr hq hl ((hcursor k').trans (cursor_setCursor_ne σ _ he))]; exact hk'
+      rw [St.succ, hcursor, cursor_setCursor_self, adj_congr hq hl, St.adj_idem, linkOf_congrL hq hl]; exact hk
+    · rw [succ_congr hq hl ((hcursor k').trans (cursor_setCursor_neL σ _ he))]; exact hk'
   unfold nextLoop
   simp only [hadj]
   cases hs : σ.linkOf (σ.adj (σ.cursor k)) with
@@ -377,7 +377,7 @@ theorem facts_next (σ : St) (t k : Nat) (b : Bool) : SegFacts σ t (.next k) (n
       by_cases he : k' = k
       · subst he; rw [St.succ, hs] at hk'; cases hk'
       · rw [← hk']
-        exact succ_congr (s := σ) (by rfl) (by rfl) (cursor_setCursor_ne σ n he)
+        exact succ_congr (s := σ) (by rfl) (by rfl) (cursor_setCursor_neL σ n he)
     · intro u h
       have := List.mem_filter.1 h
       exact ⟨this.1, by simpa using this.2⟩
